@@ -101,6 +101,92 @@ def fitSrc {σ : Type} := @fit σ AdvScheduleSrc.cfg
 def callsOf (m : Nat) (steps : List Schedule.Step) : List (Nat × Int) :=
   steps.flatMap (fun s => if s.callbackFired then (List.range' 0 m).map (fun i => (i, (s.stepNo : Int))) else [])
 
+/-! ### the callback block with the lifted guard and the lifted check of the callbacks' results -/
+
+/-- what a callback returned, as far as the source looks at it: its truth value and `isinstance(result, bool)` -/
+structure CbRes where
+  truthy : Bool
+  isBool : Bool
+
+def checkRes : ResultCheck → CbRes → Option ExcKind
+  | .coerce, _ => none
+  | .truthyNonBool e, r => if r.truthy && !r.isBool then some e else none
+  | .nonBool e, r => if !r.isBool then some e else none
+
+structure StV (σ : Type) where
+  st : St σ
+  /-- an exception left `fit` -/
+  raised : Option ExcKind
+
+/-- `for cb in self.callbacks_: result = cb(..); <check>; stop = <acc>`: a failing check leaves the loop at once -/
+def runCbsV (acc : Acc) (chk : ResultCheck) (k : Int) :
+    List (Int → CbRes) → Nat → Bool → List (Nat × Int) → Bool × List (Nat × Int) × Option ExcKind
+  | [], _, stop, calls => (stop, calls, none)
+  | cb :: r, i, stop, calls =>
+    match checkRes chk (cb k) with
+    | some e => (stop, calls ++ [(i, k)], some e)
+    | none => runCbsV acc chk k r (i + 1) (accF acc stop (cb k).truthy) (calls ++ [(i, k)])
+
+def cbBlockV {σ : Type} (cfg : Cfg) (chk : ResultCheck) (cbs : List (Int → CbRes)) (s : St σ) : StV σ :=
+  let r := runCbsV cfg.stopAcc chk (cfg.cbStep s.nIter) cbs 0 cfg.stopInit s.calls
+  let st' := { s with calls := r.2.1 }
+  match r.2.2 with
+  | some e => ⟨st', some e⟩
+  | none => ⟨if r.1 then doExit cfg.exitStop st' else st', none⟩
+
+def execEvV {σ : Type} (cfg : Cfg) (g : CbGuard) (chk : ResultCheck) (maxIter : Int) (cbs : List (Int → CbRes))
+    (trainStep : σ → Nat → Nat → σ) (lo hi : Nat) (s : StV σ) : Ev → StV σ
+  | .callbacks =>
+    match g with
+    | .truthy => if cbs.isEmpty then s else cbBlockV cfg chk cbs s.st
+    | .unguarded => if cbs.isEmpty then { s with raised := some .typeError } else cbBlockV cfg chk cbs s.st
+  | .train => { s with st := execEv cfg maxIter [] trainStep lo hi s.st .train }
+  | .incIter => { s with st := execEv cfg maxIter [] trainStep lo hi s.st .incIter }
+  | .checkMax => { s with st := execEv cfg maxIter [] trainStep lo hi s.st .checkMax }
+
+def haltedV {σ : Type} (s : StV σ) : Bool := s.raised.isSome || s.st.returned || s.st.broke
+
+def bodyStepV {σ : Type} (cfg : Cfg) (g : CbGuard) (chk : ResultCheck) (maxIter : Int) (cbs : List (Int → CbRes))
+    (trainStep : σ → Nat → Nat → σ) (b n : Int) (s : StV σ) (batch : Nat) : StV σ :=
+  if haltedV s then s else
+  let sl := sliceSrc cfg n b batch
+  cfg.body.foldl (fun s ev => if haltedV s then s else execEvV cfg g chk maxIter cbs trainStep sl.1 sl.2 s ev) s
+
+def epochStepV {σ : Type} (cfg : Cfg) (g : CbGuard) (chk : ResultCheck) (maxIter : Int) (cbs : List (Int → CbRes))
+    (trainStep : σ → Nat → Nat → σ) (b n bt : Int) (s : StV σ) (_epoch : Nat) : StV σ :=
+  if s.raised.isSome || s.st.returned then s else
+  let s' := (List.range bt.toNat).foldl (bodyStepV cfg g chk maxIter cbs trainStep b n) { s with st := { s.st with broke := false } }
+  if s'.raised.isSome then s' else { s' with st := { s'.st with broke := false } }
+
+/-- `fit` with callbacks that may return anything; `none` = rejected configuration (ValueError) -/
+def fitV {σ : Type} (cfg : Cfg) (g : CbGuard) (chk : ResultCheck) (n : Nat) (bs ep mi : Int) (cbs : List (Int → CbRes))
+    (trainStep : σ → Nat → Nat → σ) (s0 : σ) : Option (StV σ) :=
+  if cfg.rejects ep mi then none else
+  let b := cfg.batchSize bs n
+  let bt := cfg.batches n b
+  let e := cfg.epochs ep mi bt
+  some ((List.range e.toNat).foldl (epochStepV cfg g chk mi cbs trainStep b n bt) ⟨⟨s0, cfg.nIterInit, false, false, []⟩, none⟩)
+
+/-- the interpreter at the lifted configuration, guard and result check -/
+def fitVSrc {σ : Type} := @fitV σ AdvScheduleSrc.cfg AdvScheduleSrc.cbGuard AdvScheduleSrc.cbResultCheck
+
+/-- outcome of `fit` on a fresh estimator -/
+inductive FitOut (σ : Type) where
+  /-- `__setup` (run by `_validate_input`, before anything else) rejected batch_size / epochs / max_iter -/
+  | setupError (e : ExcKind)
+  /-- epochs and max_iter both unset: ValueError after the set-up -/
+  | rejected
+  | done (r : StV σ)
+
+/-- `fit` for ANY integer batch_size / epochs / max_iter: the lifted range checks of `__setup` come first -/
+def fitChecked {σ : Type} (n : Nat) (bs ep mi : Int) (cbs : List (Int → CbRes)) (trainStep : σ → Nat → Nat → σ) (s0 : σ) :
+    FitOut σ :=
+  if AdvScheduleSrc.paramRejected bs || AdvScheduleSrc.paramRejected ep || AdvScheduleSrc.paramRejected mi then
+    .setupError AdvScheduleSrc.paramRejectedExc
+  else match fitVSrc n bs ep mi cbs trainStep s0 with
+    | none => .rejected
+    | some r => .done r
+
 /-! ### predict -/
 
 /-- column chosen by a decision rule for one row of raw outputs (binary: the single output `o` against `t`) -/
@@ -134,12 +220,32 @@ def parseCbs (s : String) : Option (List (List Nat)) :=
 def parseSentinel (s : String) : Option Int :=
   if s = "-1" then some (-1) else (Proto.parseNat s).bind (fun k => if k = 0 then none else some (k : Int))
 
+/-- one callback of `schedsrc.fitv`: `<steps returning True>|<steps returning a truthy non-bool>|<b: otherwise False, o: otherwise a falsy non-bool (None, 0)>` -/
+def parseCbV (s : String) : Option (Int → CbRes) :=
+  match s.splitOn "|" with
+  | [t, nb, d] => do
+    let t ← if t = "" then some [] else Proto.parseNats t
+    let nb ← if nb = "" then some [] else Proto.parseNats nb
+    let dflt ← if d = "b" then some true else if d = "o" then some false else none
+    pure (fun k => if nb.any (fun s => (s : Int) == k) then ⟨true, false⟩
+                   else if t.any (fun s => (s : Int) == k) then ⟨true, true⟩ else ⟨false, dflt⟩)
+  | _ => none
+
+def fmtExc : Option ExcKind → String
+  | none => "-"
+  | some .runtimeError => "RuntimeError"
+  | some .valueError => "ValueError"
+  | some .typeError => "TypeError"
+
 def fmtPairs {α β} (f : α → String) (g : β → String) (l : List (α × β)) : String :=
   if l.isEmpty then "-" else ",".intercalate (l.map (fun p => f p.1 ++ ":" ++ g p.2))
 
 /-- ops:
   `schedsrc.fit <n> <batch_size|-1> <epochs|-1> <max_iter|-1> <x | stops of cb0;stops of cb1;...>`
         -> `err` | `<n_iter> <slices lo:hi,...> <calls cb:step,...>`   (interpreter at the LIFTED configuration)
+  `schedsrc.fitv <n> <batch_size|-1> <epochs|-1> <max_iter|-1> <x | T|N|d;T|N|d;...>`  (see `parseCbV`)
+        -> `setup:<exception kind>` (a parameter fails the lifted range check; ANY integers are accepted here) | `err` |
+           `<n_iter> <slices> <calls> <- | exception kind>`   (lifted guard and result check)
   `schedsrc.predbin <classes> <threshold | d (lifted default)> <outputs>` -> labels | `unmodelled`
   `schedsrc.predmulti <classes> <output matrix>`                          -> labels | `unmodelled` -/
 def handle (toks : List String) : Option String :=
@@ -156,6 +262,19 @@ def handle (toks : List String) : Option String :=
     | none => pure "err"
     | some r => pure (toString r.nIter ++ " " ++ fmtPairs toString toString r.state ++ " " ++
         fmtPairs toString toString r.calls)
+  | ["schedsrc.fitv", n, bs, ep, mi, cbs] => do
+    let n ← Proto.parseNat n
+    -- any integers: the domain guard is the LIFTED range check of `__setup` (inside `fitChecked`)
+    let bs ← Proto.parseInt bs
+    let ep ← Proto.parseInt ep
+    let mi ← Proto.parseInt mi
+    let cbs ← if cbs = "x" then some [] else (cbs.splitOn ";").mapM parseCbV
+    if n = 0 then none else
+    match fitChecked n bs ep mi cbs (fun (log : List (Nat × Nat)) lo hi => log ++ [(lo, hi)]) [] with
+    | .setupError e => pure ("setup:" ++ fmtExc (some e))
+    | .rejected => pure "err"
+    | .done r => pure (toString r.st.nIter ++ " " ++ fmtPairs toString toString r.st.state ++ " " ++
+        fmtPairs toString toString r.st.calls ++ " " ++ fmtExc r.raised)
   | ["schedsrc.predbin", cls, t, outs] => do
     let cls ← Proto.parseInts cls
     let t ← if t = "d" then some AdvScheduleSrc.thresholdDefault else Proto.parseRat t
